@@ -13,11 +13,11 @@ SPEC = dict(
                 "Sampling, not proof."),
     level_note=("trusted: testing/synctest, simnet's TCP model, the overlay rewrite, the harness model; weaker readings: a reservation "
                 "that expired but may not have been collected yet may or may not serve a CONNECT / count against caps; collection is "
-                "assumed to happen within 2 minutes of expiry; per-ASN cap not exercised (IPv4 only)"),
+                "assumed to happen within 2 minutes of expiry; IPv6-sourced clients (per-ASN cap) dial the relay's IPv4 listener, which only simnet allows"),
     technique="deterministic simulation with fault injection: full stack on simnet, lock-level scheduling, reference model + audits",
     design_ref="DESIGN.md section 6 (C11), section 9 (c2)",
     quick_s=60, thorough_s=600,
-    rule=("one run = one tape: relay resources (MaxReservations 1-4, per-IP 1-2, MaxCircuits 1-2, TTL, data / duration limit or "
+    rule=("one run = one tape: relay resources (MaxReservations 1-4, per-IP 1-2, per-ASN 1-2 when IPv6 sources are drawn, MaxCircuits 1-2, TTL, data / duration limit or "
           "unlimited), ACL, population (3-5 clients on shared / distinct public IPs, raw or real circuit clients, optional client "
           "that reaches the relay through a second relay), a history of 4-12 operations (RESERVE real / raw, refresh, move to "
           "another IP, CONNECT raw with payloads around the limit and scripted hop / stop misbehaviour or resource refusal, "
@@ -25,7 +25,7 @@ SPEC = dict(
           "batches) and the schedule; non-trivial = at least one reservation granted and one CONNECT attempted; distinct = "
           "distinct (configuration, operation/result history, scheduler decision hash)"),
     probes=["batch", "refresh-granted", "refresh-from-other-ip-granted", "refresh-refused-while-holding", "moved-keeping-reservation",
-            "reserve-refused-total-cap", "reserve-refused-per-ip-cap", "reserve-refused-acl", "reserve-refused-relayed",
+            "reserve-refused-total-cap", "reserve-refused-per-ip-cap", "reserve-refused-per-asn-cap", "reserve-refused-acl", "reserve-refused-relayed",
             "connect-refused-acl", "connect-refused-relayed", "circuit-cap-hit-source", "circuit-cap-hit-destination",
             "no-reservation-never-reserved", "no-reservation-after-disconnect", "no-reservation-after-expiry-and-collection",
             "connect-ok-on-expired-uncollected-or-uncertain", "disconnect-of-reservation-holder",
